@@ -5,12 +5,14 @@ Mirrors, as the code exists:
 * `searchlite-core/src/vectors/mod.rs`  — `normalize_in_place`, `metric_similarity`,
   `l2_distance`, `blend_scores`
 * `searchlite-core/src/vectors/hnsw.rs` — the single-layer graph: `add_vector`, `prune_list`,
-  `search_internal` (including the `worst_score` that is read once per popped candidate),
+  `search_internal` (the bound `worst_score` is re-read per neighbour since `9cbe548`; the
+  earlier once-per-candidate read is kept as `legacySearch`),
   `search`
 * `searchlite-core/src/index/segment.rs` — `collect_vector_value` (normalisation at ingest for
   cosine fields), the per-segment store and graph construction in doc-id order
 * `searchlite-core/src/api/reader.rs` — `build_vector_plan` (+ `collect_vectors`),
-  `collect_vector_maps`, `compute_hybrid_score`, `search_vector_only`, `merge_vector_hits`,
+  `collect_vector_maps` (fetch loop of `520bc94`; the earlier single fetch is `legacySegCands`),
+  `compute_hybrid_score`, `search_vector_only`, `merge_vector_hits`,
   the `MAX_VECTOR_*` caps.
 
 Import-free and executable.  Scalars are abstract (`Scalar S`): the driver instantiates `S`
@@ -185,8 +187,15 @@ structure SState (S : Type) where
 /-- `results.peek()`: the worst kept result -/
 def worstOf (rs : List (Scored S)) : Option (Scored S × List (Scored S)) := popMax Scored.gt rs
 
-/-- body of the `for &neighbor in …` loop; `worst` was read before the loop -/
-def visitNbr (mt : Metric) (st : Store S) (q : List S) (ef : Nat) (worst : S)
+/-- `results.peek().map(|s| s.0.score).unwrap_or(f32::MIN)` -/
+def worstScore (rs : List (Scored S)) : S :=
+  match worstOf rs with
+  | some (w, _) => w.score
+  | none => fmin
+
+/-- body of the `for &neighbor in …` loop; the bound `worst_score` is re-read for every
+neighbour (`fix: HNSW search compares each neighbour with the current result bound`) -/
+def visitNbr (mt : Metric) (st : Store S) (q : List S) (ef : Nat)
     (s : SState S) (nb : Nat) : SState S :=
   if s.visited.contains nb then s
   else
@@ -194,7 +203,7 @@ def visitNbr (mt : Metric) (st : Store S) (q : List S) (ef : Nat) (worst : S)
     match simOpt mt st q nb with
     | none => s
     | some sc =>
-      if s.results.length < ef || lt worst sc then
+      if s.results.length < ef || lt (worstScore s.results) sc then
         let rs := (⟨nb, sc⟩ : Scored S) :: s.results
         let rs := if rs.length > ef then (match worstOf rs with | some (_, r) => r | none => rs) else rs
         { s with cands := ⟨nb, sc⟩ :: s.cands, results := rs }
@@ -209,11 +218,10 @@ def searchLoop (mt : Metric) (st : Store S) (g : Graph) (q : List S) (ef : Nat) 
     match popMax Scored.lt s.cands with
     | none => s.results
     | some (best, rest) =>
-      let worst := match worstOf s.results with | some (w, _) => w.score | none => fmin
-      if lt best.score worst && s.results.length ≥ ef then s.results
+      if lt best.score (worstScore s.results) && s.results.length ≥ ef then s.results
       else
         searchLoop mt st g q ef fuel
-          ((g.nbrsOf best.id).foldl (visitNbr mt st q ef worst) { s with cands := rest })
+          ((g.nbrsOf best.id).foldl (visitNbr mt st q ef) { s with cands := rest })
 
 /-- `search_internal` -/
 def searchInternal (mt : Metric) (st : Store S) (g : Graph) (q : List S) (ef : Nat) :
@@ -232,6 +240,48 @@ def search (mt : Metric) (st : Store S) (g : Graph) (q : List S) (k efSearch : N
   else
     let ef := max (max efSearch k) 1
     (isort Scored.gt (searchInternal mt st g q ef)).take k
+
+/-! ### legacy search (before `9cbe548`): `worst_score` read once per popped candidate -/
+
+def legacyVisitNbr (mt : Metric) (st : Store S) (q : List S) (ef : Nat) (worst : S)
+    (s : SState S) (nb : Nat) : SState S :=
+  if s.visited.contains nb then s
+  else
+    let s := { s with visited := nb :: s.visited }
+    match simOpt mt st q nb with
+    | none => s
+    | some sc =>
+      if s.results.length < ef || lt worst sc then
+        let rs := (⟨nb, sc⟩ : Scored S) :: s.results
+        let rs := if rs.length > ef then (match worstOf rs with | some (_, r) => r | none => rs) else rs
+        { s with cands := ⟨nb, sc⟩ :: s.cands, results := rs }
+      else s
+
+def legacySearchLoop (mt : Metric) (st : Store S) (g : Graph) (q : List S) (ef : Nat) :
+    Nat → SState S → List (Scored S)
+  | 0, s => s.results
+  | fuel + 1, s =>
+    match popMax Scored.lt s.cands with
+    | none => s.results
+    | some (best, rest) =>
+      let worst := worstScore s.results
+      if lt best.score worst && s.results.length ≥ ef then s.results
+      else
+        legacySearchLoop mt st g q ef fuel
+          ((g.nbrsOf best.id).foldl (legacyVisitNbr mt st q ef worst) { s with cands := rest })
+
+def legacySearch (mt : Metric) (st : Store S) (g : Graph) (q : List S) (k efSearch : Nat) :
+    List (Scored S) :=
+  if k = 0 then []
+  else
+    let ef := max (max efSearch k) 1
+    let found := match g.entry with
+      | none => []
+      | some e =>
+        let sc := simOr mt st q e
+        legacySearchLoop mt st g q ef (g.nbrs.length + 2)
+          { visited := [e], cands := [⟨e, sc⟩], results := [⟨e, sc⟩] }
+    (isort Scored.gt found).take k
 
 /-- order used by `prune_list`: similarity to `target` descending, then id ascending -/
 def pruneLt (mt : Metric) (st : Store S) (target : Nat) (a b : Nat) : Bool :=
@@ -502,6 +552,20 @@ def keepDoc (requireText : Bool) (seg : Segment κ S) (doc : Nat) : Bool :=
   | some d => !d.deleted && d.passFilter && d.passVFilter && (!requireText || d.textMatch)
   | none => false
 
+/-- the fetch loop of `collect_vector_maps` (`520bc94`): search `searchK` neighbours, keep the
+eligible ones; stop when `wanted` of them were found or the segment is exhausted, otherwise
+double `searchK` (capped by the number of vectors).  `searchK` grows strictly until it reaches
+`available`, so `available + 1` rounds of fuel suffice. -/
+def fetchLoop (find : Nat → List (Scored S)) (keep : Scored S → Bool) (wanted available : Nat) :
+    Nat → Nat → List (Scored S)
+  | 0, searchK => ((find searchK).filter keep).take wanted
+  | fuel + 1, searchK =>
+    let cands := find searchK
+    let exhausted := searchK ≥ available || cands.length < searchK
+    let kept := cands.filter keep
+    if kept.length ≥ wanted || exhausted then kept.take wanted
+    else fetchLoop find keep wanted available fuel (min (searchK * 2) available)
+
 /-- candidates of one clause in one segment -/
 def segCands (requireText : Bool) (c : Clause κ S) (segOrd : Nat) (seg : Segment κ S) :
     List (Cand S) :=
@@ -510,8 +574,22 @@ def segCands (requireText : Bool) (c : Clause κ S) (segOrd : Nat) (seg : Segmen
   if available = 0 then []
   else
     let g := buildGraph c.metric st c.m c.efc
+    let wanted := min (max c.candidateSize c.k) (max available 1)
+    let kept := fetchLoop (fun k => search c.metric st g c.vector k c.efSearch)
+      (fun s => keepDoc requireText seg s.id) wanted available (available + 1) wanted
+    kept.map (fun s => { seg := segOrd, doc := s.id, score := mul s.score c.boost })
+
+/-- **legacy** candidates of one clause in one segment (before `520bc94` and `9cbe548`): one
+search for `max(candidate_size, k)` neighbours, eligibility tested afterwards -/
+def legacySegCands (requireText : Bool) (c : Clause κ S) (segOrd : Nat) (seg : Segment κ S) :
+    List (Cand S) :=
+  let st := storeOf seg c.field c.metric
+  let available := present st
+  if available = 0 then []
+  else
+    let g := buildGraph c.metric st c.m c.efc
     let searchK := min (max c.candidateSize c.k) (max available 1)
-    let found := search c.metric st g c.vector searchK c.efSearch
+    let found := legacySearch c.metric st g c.vector searchK c.efSearch
     (found.filter (fun s => keepDoc requireText seg s.id)).map
       (fun s => { seg := segOrd, doc := s.id, score := mul s.score c.boost })
 
